@@ -1,5 +1,5 @@
-"""prod_az.py — (subprocess side) C16 for the azimuth trigger: one get_next of SunAzimuthProducerCompare at a location,
-under a wall-clock budget.  argv: lat lon azimuth dt_ns budget_s  ->  JSON ['ok', ns] | ['raise', name] | ['budget'],
+"""prod_az.py — (subprocess side) C16 for the azimuth and elevation triggers: one get_next of SunAzimuthProducerCompare /
+SunElevationProducerCompare at a location, under a time budget.  argv: lat lon target dt_ns budget_s [rising|setting]  ->  JSON ['ok', ns] | ['raise', name] | ['budget'],
 seconds."""
 import json
 import signal
@@ -22,7 +22,10 @@ def main() -> int:
     from eascheduler.errors.errors import InfiniteLoopDetectedError, LocationNotSetError
     from eascheduler.producers import prod_sun
     prod_sun.set_location(lat, lon, 0.0)
-    p = prod_sun.SunAzimuthProducerCompare(az)
+    if len(sys.argv) > 6:
+        p = prod_sun.SunElevationProducerCompare(az, sys.argv[6])
+    else:
+        p = prod_sun.SunAzimuthProducerCompare(az)
     signal.signal(signal.SIGALRM, _alarm)
     signal.setitimer(signal.ITIMER_REAL, budget)
     t0 = time.perf_counter()
